@@ -254,6 +254,9 @@ def shapes(tier, warnings=('all', 'none')):
     add('subtype cycle', 'two entities', wrap('ENTITY a SUBTYPE OF (b);\n  x : INTEGER;\nEND_ENTITY;\nENTITY b SUBTYPE OF (a);\n  y : INTEGER;\nWHERE\n  wr1 : x > 0;\nEND_ENTITY;\n'))
     add('subtype cycle', 'entity under itself', wrap('ENTITY a SUBTYPE OF (a);\n  x : INTEGER;\nEND_ENTITY;\n'))
     add('select cycle', 'two select types', wrap('TYPE s1 = SELECT (s2);\nEND_TYPE;\nTYPE s2 = SELECT (s1);\nEND_TYPE;\n' + ent()))
+    add('aggregate type containing itself', 'one defined type', wrap('TYPE t = SET [1:?] OF t;\nEND_TYPE;\n' + ent()))
+    add('aggregate type containing itself', 'two defined types', wrap('TYPE t1 = LIST OF t2;\nEND_TYPE;\nTYPE t2 = SET OF t1;\nEND_TYPE;\n' + ent()))
+    add('type cycle', 'one defined type', wrap('TYPE t1 = t1;\nEND_TYPE;\n' + ent()))
     add('type cycle', 'two defined types', wrap('TYPE t1 = t2;\nEND_TYPE;\nTYPE t2 = t1;\nEND_TYPE;\n' + ent()))
     add('USE FROM itself', 'interface', wrap('USE FROM p;\n' + ent()))
     add('USE FROM unknown schema', 'interface', wrap('USE FROM nowhere (x);\n' + ent()))
